@@ -181,7 +181,7 @@ struct Engine {
   // shapes seen (classes / non-trivial rule)
   bool c_partial = false, c_eagain = false, c_before_enable = false, c_leftover_more = false, c_thr_held = false, c_sc = false,
        c_close_reported = false, c_close_pending_in = false, c_disc_in_cb = false, c_cb_send = false, c_disc = false, c_big = false,
-       c_multi_readv = false, c_err = false, c_cross = false;
+       c_err = false, c_cross = false;
 
   Engine(const Scenario &sc, CaseInfo &ci, const char *subname) : s(sc), info(ci), sub(subname), loop(tbox::event::Loop::New()), rbuf(1u << 16) {
     if (!s.ops.empty() && s.ops[0].code == CFG) cfg = &s.ops[0];
